@@ -44,9 +44,13 @@ struct Dir {
     // C20 model
     queue: VecDeque<usize>,
     emitted: BTreeMap<u32, u64>,
+    /// receiver-reported window base / one past the newest id (from the wire, see C12)
+    reported_base: Option<u32>,
+    next_id: Option<u32>,
     model_size: u64,
     model_broken: bool,
-    incarnation_closed: bool,
+    /// the connection reported a terminal event (or was dropped): no liveness claim any more
+    ended: bool,
 }
 
 pub struct TransportOracle {
@@ -140,6 +144,25 @@ impl Oracle for TransportOracle {
                 dir.by_ch.entry(*ch).or_default().push(idx);
                 dir.queue.push_back(idx);
                 dir.model_size += payload.len() as u64;
+            }
+            Rec::Event { ep, peer, ev: AppEvent::Disconnect | AppEvent::Error(_), .. } => {
+                if let Some(other) = peer.or_else(|| peer_of(cx.plan, *ep)) {
+                    for k in [(*ep, other), (other, *ep)] {
+                        self.dirs.entry(k).or_default().ended = true;
+                    }
+                }
+            }
+            Rec::Call { op: Op::ServerDrop { ep, to }, skipped: false, .. } => {
+                for k in [(*ep, *to), (*to, *ep)] {
+                    self.dirs.entry(k).or_default().ended = true;
+                }
+            }
+            Rec::Call { op: Op::Destroy { ep }, skipped: false, .. } => {
+                for (k, d) in self.dirs.iter_mut() {
+                    if k.0 == *ep || k.1 == *ep {
+                        d.ended = true;
+                    }
+                }
             }
             Rec::Event { call, ep, peer, ev: AppEvent::Receive(p), .. } => {
                 let src = peer.or_else(|| peer_of(cx.plan, *ep))?;
@@ -269,32 +292,52 @@ impl Oracle for TransportOracle {
                                 match dir.queue.pop_front() {
                                     Some(si) if dir.subs[si].payload.len() == *len => {
                                         dir.emitted.insert(*sequence_id, *len as u64);
+                                        if dir.reported_base.is_none() {
+                                            dir.reported_base = Some(*sequence_id);
+                                        }
+                                        dir.next_id = Some((*sequence_id + 1) & 0xFFFFF);
                                     }
                                     _ => dir.model_broken = true,
                                 }
                             }
                         }
                     }
-                    T::PacketBaseAdvanced { old, new } => {
-                        if let Some(dst) = self.owner_dst(*hc, *ep, cx) {
-                            if let Some(dir) = self.dirs.get_mut(&(*ep, dst)) {
-                                let mut id = *old;
-                                while id != *new {
-                                    match dir.emitted.remove(&id) {
-                                        Some(len) => dir.model_size -= len,
-                                        None => dir.model_broken = true,
-                                    }
-                                    id = (id + 1) & 0xFFFFF;
-                                }
-                            }
-                        }
-                    }
+
                     T::HcCreated { .. } => {
                         self.hc_owner.insert(*hc, (*ep, None));
                     }
                     _ => (),
                 }
                 let _ = call;
+            }
+            Rec::Consumed { ep, src: Some(src), bytes, .. } => {
+                // "acknowledged by the peer": the packet window base of the ack frames the sender
+                // reads, validated against what it has sent (independent of its own bookkeeping)
+                if !self.clauses.buffer_model || bytes.first() != Some(&FRAME_ACK) || matches!(cx.plan.endpoints[*src].kind, EndpointKind::Raw) {
+                    return None;
+                }
+                use uflow::verif::Serialize;
+                let Some(uflow::verif::Frame::AckFrame(f)) = uflow::verif::Frame::read(bytes) else { return None };
+                let Some(dir) = self.dirs.get_mut(&(*ep, *src)) else { return None };
+                let (Some(base), Some(next)) = (dir.reported_base, dir.next_id) else { return None };
+                let b = f.packet_window_base_id;
+                if b > 0xFFFFF {
+                    return None;
+                }
+                let delta = b.wrapping_sub(base) & 0xFFFFF;
+                let span = next.wrapping_sub(base) & 0xFFFFF;
+                if delta == 0 || delta > span {
+                    return None;
+                }
+                let mut id = base;
+                while id != b {
+                    match dir.emitted.remove(&id) {
+                        Some(len) => dir.model_size -= len,
+                        None => dir.model_broken = true,
+                    }
+                    id = (id + 1) & 0xFFFFF;
+                }
+                dir.reported_base = Some(b);
             }
             Rec::Probe { call, ep, probe, .. } => {
                 // remember which server-side half connection talks to which client
@@ -355,6 +398,11 @@ impl Oracle for TransportOracle {
                 let ideal = self.clauses.ideal;
                 if live || ideal {
                     for ((src, dst), dir) in self.dirs.iter() {
+                        if dir.ended {
+                            // the connection itself ended (timeout, disconnect, drop): what was
+                            // still queued is lost with it, which is not this property's business
+                            continue;
+                        }
                         for (i, s) in dir.subs.iter().enumerate() {
                             let must = if ideal { s.mode != MODE_TIME_SENSITIVE } else { s.mode == MODE_RELIABLE };
                             if must && !s.delivered {
